@@ -92,6 +92,33 @@ Proof. exact dtls_old_or_future_dropped. Qed.
 Print Assumptions c06_dtls_old_or_future_dropped.
 
 (* the build switches the model assumes are the ones of the source *)
+(* OFFERED is not SELECTED.  The mode records both: [md_res] what the server selected, [md_declined] that the ClientHello offered a
+   resumption (pre_shared_key: external PSK or ticket / SessionTicket / session id) which the server turned down.  The legal
+   sequences are those of what was selected; a declined offer changes nothing: the full handshake of the mode - the client's
+   Certificate and CertificateVerify included when the server asked for them - stays due ([c06_only_legal] / [c06_no_skip] are
+   stated over this mode). *)
+Theorem c06_declined_offer_irrelevant : forall md b l, legal md l <-> legal (set_declined md b) l.
+Proof.
+  intros md b l. split; [apply legal_declined|].
+  intro H. apply (legal_declined _ (md_declined md)) in H. destruct md; exact H.
+Qed.
+Print Assumptions c06_declined_offer_irrelevant.
+(* the model on such a hello: a TLS 1.3 server that asked for a certificate and declined the offered PSK refuses a Finished that
+   skips Certificate / CertificateVerify (with and without a HelloRetryRequest round) and completes on the full flight, in the mode
+   "nothing selected, offer declined"; a <= 1.2 / DTLS server likewise *)
+Example c06_declined_offer_runs :
+  let hm t b := IHs (mkmsg t b MExp) in
+  err (fst (run (init (Server true true false)) [hm CH (BHello13d false); hm FIN (BFin true)])) = true /\
+  err (fst (run (init (Server true true false)) [hm CH (BHello13d true); hm CH (BHello13d false); hm FIN (BFin true)])) = true /\
+  err (fst (run (init (Server true true false)) [hm CH (BHello13d false); hm CERT BPlain; hm FIN (BFin true)])) = true /\
+  (let s := fst (run (init (Server true true false)) [hm CH (BHello13d false); hm CERT BPlain; hm CVFY BPlain; hm FIN (BFin true)]) in
+   err s = false /\ hs s = DONE /\
+   option_map (fun md => (md_res md, md_declined md, md_cauth md)) (negotiated (Server true true false) (acc s)) = Some (ResNone, true, true)) /\
+  err (fst (run (init (Server false true false)) [hm CH (BHello12d false true); hm CKE BPlain; ICcs; hm FIN (BFin true)])) = true /\
+  (let s := fst (run (init (DServer true)) [hm CH (BHello12d false true); hm CERT BPlain; hm CKE BPlain; hm CVFY BPlain; ICcs; hm FIN (BFin true)]) in
+   err s = false /\ hs s = DONE /\ option_map md_declined (negotiated (DServer true) (acc s)) = Some true).
+Proof. vm_compute. repeat split; reflexivity. Qed.
+
 Theorem c06_config_as_modelled :
   h_rehandshakes_enabled = false /\ h_ocsp_must_staple = true /\ h_stateless_tickets = true /\ h_psk_and_dhe_suites = true.
 Proof. exact config_as_modelled. Qed.
